@@ -63,7 +63,11 @@ class Check(HCheck):
         # sibling pages whose stems share their first 74 bytes (order decided in the tail blocks)
         ll = [A + L.long_stem(n) for n in (75, 76, 148, 149)] + [A + b"p:" + b"a" * 72 + b"\x00\x00|", A + b"p:" + b"a" * 71 + b"|"]
         lops = [al.page(u, i % 2 == 0) for i, u in enumerate(ll)] + [al.page(ll[1] + b"p:k|")]
+        # 40 siblings inserted in ascending order: a right spine, tokens whose path has 40 steps
+        deep_root = (al.page(A), al.pages(tuple(A + b"p:s%03d|" % i for i in range(40)), False), al.page(Sx, True))
+        dops = [al.page(A + b"p:s020x|", True), al.create(A + b"p:s010|"), al.page(A + b"p:s039|p:k|")]
         return [
+            Space(Cfg("domain"), dops, 1, roots=[deep_root], name="pages/deep-right-spine"),
             Space(Cfg("domain"), lops, 5 if thorough else 4, roots=[(al.page(A),)], name="pages/long-siblings"),
             Space(Cfg("domain"), ops, d, roots=[al.R0, al.R1, al.R4], name="pages/domain"),
             Space(Cfg("subdomain", {Ab: "path2"}), ops, d - 1, roots=[R5], name="pages/subdomain+path2"),
